@@ -19,6 +19,11 @@
 // goroutine) or exited by their own goroutine right away.  The probes that follow judge the quiescent state.
 // Reload (op reload): the rule table is replaced while entries are live (hotspot.LoadRules, LoadRulesOfResource /
 // ClearRulesOfResource, or ClearRules + LoadRules); the entries opened before it are exited afterwards like any other.
+// Other slots that fail ("chain" of op new, "pp" of a request): the entries of the trace go through a slot chain of their own
+// (api.WithSlotChain) - api.BuildDefaultSlotChain() ("user") or only the hot-parameter slots ("custom") - to which three user
+// slots are added: a rule-check slot in front of every check, a statistic slot in front of (order 3500) and one behind (order
+// 9000) the hot-parameter statistic slot (order 4000).  pp (carried by api.WithFlag) names the slot that panics while the request
+// is served: chk, sb / sa (OnEntryPassed), cb / ca (OnCompleted).  A panic reaching the caller of api.Entry or Exit is recorded.
 // The recorded trace is validated against spec/HotParamConc_Trace.tla.
 //
 // usage: c06 <scenarios.ndjson> <trace.ndjson>
@@ -62,6 +67,73 @@ type run struct {
 	live  map[int64]*base.SentinelEntry
 	sched *hx.Sched
 	pend  map[int64]*parked
+	chain *base.SlotChain // nil: the global chain
+}
+
+// where a user slot panics while a request is served (Input.Flag of the request)
+var ppFlag = map[string]int32{"": 0, "none": 0, "sb": 1, "sa": 2, "cb": 3, "ca": 4, "chk": 5}
+
+// userStat is a user statistic slot: it panics when told "passed" / "completed" for a request flagged pass / comp
+type userStat struct {
+	order      uint32
+	pass, comp int32
+}
+
+func (s *userStat) Order() uint32 { return s.order }
+func (s *userStat) OnEntryPassed(ctx *base.EntryContext) {
+	if ctx.Input.Flag == s.pass {
+		panic("user statistic slot: OnEntryPassed")
+	}
+}
+func (s *userStat) OnEntryBlocked(*base.EntryContext, *base.BlockError) {}
+func (s *userStat) OnCompleted(ctx *base.EntryContext) {
+	if ctx.Input.Flag == s.comp {
+		panic("user statistic slot: OnCompleted")
+	}
+}
+
+// userCheck is a user rule-check slot in front of every other check: it panics for a request flagged chk
+type userCheck struct{}
+
+func (userCheck) Order() uint32 { return 100 }
+func (userCheck) Check(ctx *base.EntryContext) *base.TokenResult {
+	if ctx.Input.Flag == ppFlag["chk"] {
+		panic("user rule-check slot")
+	}
+	return nil
+}
+
+// the slot chain of a trace: "" = the global one, "user" = the default slots + the user slots, "custom" = only the
+// hot-parameter slots + the user slots
+func buildChain(kind string) *base.SlotChain {
+	var sc *base.SlotChain
+	switch kind {
+	case "":
+		return nil
+	case "user":
+		sc = api.BuildDefaultSlotChain()
+	case "custom":
+		sc = base.NewSlotChain()
+		sc.AddRuleCheckSlot(hotspot.DefaultSlot)
+		sc.AddStatSlot(hotspot.DefaultConcurrencyStatSlot)
+	default:
+		hx.Fatal("chain %q", kind)
+	}
+	sc.AddRuleCheckSlot(userCheck{})
+	sc.AddStatSlot(&userStat{order: 3500, pass: ppFlag["sb"], comp: ppFlag["cb"]})
+	sc.AddStatSlot(&userStat{order: 9000, pass: ppFlag["sa"], comp: ppFlag["ca"]})
+	return sc
+}
+
+// Exit of an entry; a panic escaping the library is an observable
+func exit(e *base.SentinelEntry) (panicked bool) {
+	defer func() {
+		if x := recover(); x != nil {
+			panicked = true
+		}
+	}()
+	e.Exit()
+	return
 }
 
 // release the parked caller id: it runs through the statistic slots, api.Entry returns; the outcome is recorded
@@ -148,8 +220,20 @@ func (r *run) liveObs() []hx.M {
 	return out
 }
 
-func opts(tab *hpx.Table, s hx.M) []api.EntryOption {
+func (r *run) opts(s hx.M) []api.EntryOption {
+	tab := r.tab
 	var o []api.EntryOption
+	if r.chain != nil {
+		o = append(o, api.WithSlotChain(r.chain))
+	}
+	if pp, ok := ppFlag[hx.Str(s, "pp")]; !ok {
+		hx.Fatal("pp %q", hx.Str(s, "pp"))
+	} else if pp != 0 {
+		if r.chain == nil {
+			hx.Fatal("trace %d: pp without a chain of its own", r.tr)
+		}
+		o = append(o, api.WithFlag(pp))
+	}
 	if a := tab.Args(s["args"]); len(a) > 0 {
 		o = append(o, api.WithArgs(a...))
 	}
@@ -231,7 +315,8 @@ func main() {
 			if e, _ := api.Entry("c06_warmup", api.WithArgs(0, 0, 0, 0, 0, 0, 0, 0)); e != nil {
 				e.Exit()
 			}
-			r = &run{tr: hx.Int(s, "tr"), tab: hpx.NewTable(hx.Str(s, "ty")), live: map[int64]*base.SentinelEntry{}, pend: map[int64]*parked{}}
+			r = &run{tr: hx.Int(s, "tr"), tab: hpx.NewTable(hx.Str(s, "ty")), live: map[int64]*base.SentinelEntry{}, pend: map[int64]*parked{},
+				chain: buildChain(hx.Str(s, "chain"))}
 			rules := r.rules(s["rules"], nil)
 			if _, err := hotspot.LoadRules(rules); err != nil {
 				hx.Fatal("LoadRules: %v", err)
@@ -239,11 +324,11 @@ func main() {
 			if got := len(hotspot.GetRules()); got != len(rules) {
 				hx.Fatal("trace %d: %d of %d rules accepted", r.tr, got, len(rules))
 			}
-			tr.Emit(hx.M{"op": "new", "tr": r.tr, "ty": r.tab.Ty, "rules": s["rules"]})
+			tr.Emit(hx.M{"op": "new", "tr": r.tr, "ty": r.tab.Ty, "rules": s["rules"], "chain": hx.Str(s, "chain")})
 		case "req":
 			id := hx.Int(s, "id")
-			e, b, p := entry(r.res(hx.Str(s, "res")), opts(r.tab, s))
-			rec := hx.M{"op": "req", "id": id, "res": s["res"], "args": args, "atts": atts, "ok": e != nil && b == nil, "tv": 0}
+			e, b, p := entry(r.res(hx.Str(s, "res")), r.opts(s))
+			rec := hx.M{"op": "req", "id": id, "res": s["res"], "args": args, "atts": atts, "ok": e != nil && b == nil, "tv": 0, "pp": norm(s, "pp", "none")}
 			if p {
 				rec["panic"], rec["ok"] = true, false
 			} else if b != nil {
@@ -261,11 +346,11 @@ func main() {
 				r.sched.Filter = func(p string) bool { return p == "chain.checked" }
 			}
 			pk := &parked{}
-			res, o := r.res(hx.Str(s, "res")), opts(r.tab, s)
+			res, o := r.res(hx.Str(s, "res")), r.opts(s)
 			pk.proc = r.sched.Spawn(func() { pk.e, pk.b, pk.p = entry(res, o) })
 			point := r.sched.Step(pk.proc)
 			r.pend[id] = pk
-			tr.Emit(hx.M{"op": "chk", "id": id, "res": s["res"], "args": args, "atts": atts, "point": point, "live": r.liveObs()})
+			tr.Emit(hx.M{"op": "chk", "id": id, "res": s["res"], "args": args, "atts": atts, "point": point, "pp": norm(s, "pp", "none"), "live": r.liveObs()})
 		case "rec":
 			r.record(tr, hx.Int(s, "id"))
 		case "recall":
@@ -283,9 +368,9 @@ func main() {
 			if e == nil { // the request was rejected on the real code: nothing to exit
 				continue
 			}
-			e.Exit()
+			p := exit(e)
 			delete(r.live, id)
-			tr.Emit(hx.M{"op": "exit", "id": id, "live": r.liveObs()})
+			tr.Emit(hx.M{"op": "exit", "id": id, "panic": p, "live": r.liveObs()})
 		case "exitall":
 			// drain: exit whatever is still live on the real code, oldest first
 			ids := make([]int64, 0, len(r.live))
@@ -297,13 +382,13 @@ func main() {
 				sort.Slice(ids, func(i, j int) bool { return ids[i] > ids[j] })
 			}
 			for _, id := range ids {
-				r.live[id].Exit()
+				p := exit(r.live[id])
 				delete(r.live, id)
-				tr.Emit(hx.M{"op": "exit", "id": id, "live": r.liveObs()})
+				tr.Emit(hx.M{"op": "exit", "id": id, "panic": p, "live": r.liveObs()})
 			}
 		case "probe":
 			// how many further entries for this value are admitted right now
-			res, o := r.res(hx.Str(s, "res")), opts(r.tab, s)
+			res, o := r.res(hx.Str(s, "res")), r.opts(s)
 			var got []*base.SentinelEntry
 			tv := int64(0)
 			for len(got) < 12 {
@@ -380,7 +465,7 @@ func (r *run) burst(s hx.M) []hx.M {
 	// the value table is not safe for concurrent use: every goroutine gets its options built here
 	os_ := make([][]api.EntryOption, g)
 	for i := range os_ {
-		os_[i] = opts(r.tab, s)
+		os_[i] = r.opts(s)
 	}
 	type outcome struct {
 		e *base.SentinelEntry
@@ -450,7 +535,7 @@ func (r *run) stress(s hx.M) int64 {
 	cs := make([]choice, 0, len(choices))
 	for _, c := range choices {
 		m := c.(map[string]interface{})
-		cs = append(cs, choice{res: r.res(hx.Str(m, "res")), o: opts(r.tab, m), want: r.tab.Names(r.tab.Args(m["args"]))})
+		cs = append(cs, choice{res: r.res(hx.Str(m, "res")), o: r.opts(m), want: r.tab.Names(r.tab.Args(m["args"]))})
 	}
 	// make sure every value has a counter cell before the goroutines race for the first access
 	prev := runtime.GOMAXPROCS(8)
